@@ -72,7 +72,7 @@ def same_invocation_replay_cases(tier, seed):
                 if first == "wfc":
                     op = {"k": "wfc", "init": 0, "decisions": [("cont", 1), ("stop",)]}
                 elif first == "wait-then-step":
-                    op = {"k": "step", "val": "plain"}
+                    op = {"k": "step", "val": {"items": ["apple"]}, "mutate": True}  # the workflow updates the delivered value in place
                 else:
                     op = {"k": "step", "script": [{"do": "fail", "cls": "ValueError", "msg": "x"}, {"do": "ok", "val": 7}], "retry": {"decisions": [("retry", 1), ("stop",)]},
                           "sem": "most" if first == "retry-most" else "least"}
